@@ -11,7 +11,7 @@ func init() {
 	register("C19", propMeta{
 		Explanation: "Decides the wiring of the three agents' tasks: (R1) auditor — the membership proof is requested for the batch's first snapshot (its event digest and version), checked against a snapshot whose history digest is the gossiped one and whose hyper digest is the stored one of the proof's current version, with the gossiped event digest; every successful path of the task performs the verification; the failing edge raises an alert and the passing edge does not; a request the log refuses (4xx) raises an alert — the error type the auditor's alert branch names is the one the client constructs; " +
 			"(R2) monitor — incremental proof requested and verified between the first and last snapshot of the batch on every successful path (no batch shape is skipped), failure and request errors alert; (R3) publisher — a snapshot is forwarded only on the cache-miss edge keyed by its signature, the same key is recorded on that edge before the snapshot is queued, and the store receives the filtered batch.",
-		Added:       "Also (R4) each task works on the batch of its own message, alerts are handed over with a blocking send, the auditor's query carries the version whenever one is given.",
+		Added:       "Also (R4) each task works on the batch of its own message, alerts are handed over with a blocking send, the auditor's query carries the version whenever one is given. Third round: (R4) the dedup key covers the whole batch, loop goroutines own their variables; (R3) the publisher posts each batch once.",
 		Assumptions: []string{"verification verdicts as decided by C02/C03"},
 		Declined:    "the 'iff' over every tampering and every honest log (needs the verifiers' behaviour); redelivery patterns over schedules.",
 	}, runC19)
